@@ -563,7 +563,7 @@ def check_progress(world, hist, pred, idx, text, outp, logs, name):
                     cur[1] += DOTS.get(node["steps"][i]["status"], "?")
     got = {}
     for line in text.split("\n"):
-        m = re.match(r"^(features/\S+\.feature)  (\S*)\s*$", line)
+        m = re.match(r"^(features/.+?\.feature)  (\S*)\s*$", line)
         if m:
             got[m.group(1)] = m.group(2)
     for fn, marks in want:
